@@ -262,6 +262,18 @@ fn strip_ids(p: &str) -> String {
     // a procfs handle that fell back from a private mount to the host's /proc
     // (a deliberate tolerance under faults) shows the same object below /proc
     let p = p.strip_prefix("/proc/").map(|r| format!("/{r}")).unwrap_or_else(|| p.to_string());
+    // ProcfsBase::ProcThreadSelf deliberately degrades from thread-self to
+    // self/task/<tid> to self when its probes fail ("technically incorrect but
+    // we have no other choice"): /<pid>/task/<tid>/x and /<pid>/x are the same
+    // answer as far as this oracle is concerned
+    let p = {
+        let c: Vec<&str> = p.split('/').collect();
+        if c.len() > 4 && c[2] == "task" && c[1].bytes().all(|b| b.is_ascii_digit()) && c[3].bytes().all(|b| b.is_ascii_digit()) {
+            format!("/{}/{}", c[1], c[4..].join("/"))
+        } else {
+            p
+        }
+    };
     // pids / tids differ between universes: numeric components become N
     p.split('/').map(|c| if !c.is_empty() && c.len() >= 3 && c.bytes().all(|b| b.is_ascii_digit()) { "N" } else { c }).collect::<Vec<_>>().join("/")
 }
